@@ -9,7 +9,9 @@ import Driver.OpsDeform
 import Driver.OpsGui
 import Driver.OpsLatPlanar2DCode
 import Driver.OpsLatRotatedPlanar2DCode
+import Driver.OpsLatRotatedPlanar3DCode
 import Driver.OpsLatToric2DCode
+import Driver.OpsLatXCubeCode
 import Driver.OpsMask
 import Driver.OpsNoise
 import Driver.OpsSim
@@ -21,7 +23,7 @@ open Panqec
     (`none` = not my op); the first that answers wins. -/
 
 def handlers : List (List String → Option String) :=
-  [Drv.handleAnalysis, Drv.handleBatch, Drv.handleBits, Drv.handleCli, Drv.handleCode, Drv.handleDeform, Drv.handleGui, Drv.handleLatPlanar2DCode, Drv.handleLatRotatedPlanar2DCode, Drv.handleLatToric2DCode, Drv.handleMask, Drv.handleNoise, Drv.handleSim, Drv.handleSweep]
+  [Drv.handleAnalysis, Drv.handleBatch, Drv.handleBits, Drv.handleCli, Drv.handleCode, Drv.handleDeform, Drv.handleGui, Drv.handleLatPlanar2DCode, Drv.handleLatRotatedPlanar2DCode, Drv.handleLatRotatedPlanar3DCode, Drv.handleLatToric2DCode, Drv.handleLatXCubeCode, Drv.handleMask, Drv.handleNoise, Drv.handleSim, Drv.handleSweep]
 
 def handleToks (toks : List String) : String :=
   match handlers.findSome? (fun h => h toks) with
